@@ -11,6 +11,44 @@ import sys
 from harness import common as C
 
 
+def repeat_with_held_inputs():
+    from harness.jaxsetup import jax, jnp, np, jx
+    from harness import probes
+    from jaxley.connect import connect
+    out = []
+    net = probes.build_net([[2], [2], [2]], [2, 4, 6, 8, 10, 12])
+    for pre, post, ty in ((0, 1, "P"), (3, 5, "Q"), (5, 4, "Q"), (2, 4, "P"), (1, 3, "P")):
+        connect(net.select(nodes=[pre]), net.select(nodes=[post]), probes.SYN[ty]())
+    net.record("v", verbose=False)
+    net.select(nodes=[0]).stimulate(jnp.asarray([11.0, 12.0, 13.0]), verbose=False)
+    ps = net.P.edge(1).data_set("P_w", jnp.asarray(2.0), None)          # global edge 3, rank 1 within its type
+    ps = net.Q.edge(1).data_set("Q_w", jnp.asarray(3.0), ps)            # global edge 2, rank 1
+    ds = net.select(nodes=[2]).data_stimulate(jnp.asarray([5.0, 6.0, 7.0]), None)
+    dc = net.Q.edge(0).data_clamp("Q_s", jnp.asarray([7.0, 8.0, 9.0]), None)
+    twin = pickle_copy(net)
+    twin.P.edge(1).set("P_w", 2.0)
+    twin.Q.edge(1).set("Q_w", 3.0)
+    for vs in ("jaxley.thomas", "jax.sparse"):
+        ref = np.asarray(jx.integrate(twin, delta_t=probes.DT, voltage_solver=vs, data_stimuli=ds, data_clamps=dc))
+        runs = [np.asarray(jx.integrate(net, delta_t=probes.DT, voltage_solver=vs, param_state=ps, data_stimuli=ds, data_clamps=dc))
+                for _ in range(3)]
+        with jax.disable_jit(False):
+            runs.append(np.asarray(jax.jit(lambda: jx.integrate(net, delta_t=probes.DT, voltage_solver=vs, param_state=ps,
+                                                                  data_stimuli=ds, data_clamps=dc))()))
+        for i, r in enumerate(runs):
+            if r.shape != ref.shape or not np.allclose(r, ref, rtol=1e-12, atol=1e-9):
+                out.append({"held_input": "param_state+data_stimuli+data_clamps", "voltage_solver": vs, "call": i + 1,
+                            "what": "call %d with the same held inputs differs from the module with the values set in its tables" % (i + 1),
+                            "maxdiff": float(np.max(np.abs(r - ref))) if r.shape == ref.shape else None})
+                break
+    return out
+
+
+def pickle_copy(m):
+    import pickle
+    return pickle.loads(pickle.dumps(m))
+
+
 def main(which):
     chk = C.Check(which, "model_checking")
     quick = C.tier() == "quick"
@@ -81,6 +119,14 @@ def main(which):
             if mm["kind"] == "returned_state":
                 sig["prod_checkpoint_lengths_gt_steps"] = mm.get("prod_gt_steps")
             chk.violation(sig, mm)
+    nrepeat = 0
+    if which == "C06":
+        # repeatability with functional inputs that the CALLER holds: the same param_state / data_stimuli / data_clamps objects are
+        # passed to integrate again and again (eager, then jit); a network with interleaved synapse types, data_set on synapses
+        # whose global index differs from their rank within the type
+        for bad in repeat_with_held_inputs():
+            chk.violation({"kind": "repeat_differs", "held_input": bad["held_input"], "voltage_solver": bad["voltage_solver"]}, bad)
+        nrepeat = 12
     ncompose = 0
     if which == "C07":
         # the same law (Split(k) of Integrate.tla) on a model outside the integer probe domain: a channel that reads a membrane
@@ -99,6 +145,7 @@ def main(which):
             for mm in o["mismatch"]:
                 chk.violation({k: mm[k] for k in ("kind", "model", "layout") if k in mm}, mm)
     chk.set("continuations_of_a_current_reading_model", ncompose)
+    chk.set("repeated_calls_with_held_functional_inputs", nrepeat)
     chk.set("states", res.distinct)
     chk.set("transitions", res.generated)
     chk.set("traces_validated_against_impl", ncompose + tot["runs"] + tot["splits"] + tot["refused"] + tot["mode_runs"] + tot["manual_runs"])
